@@ -1,0 +1,35 @@
+//go:build verif
+
+package innerring
+
+import (
+	"context"
+
+	"github.com/nspcc-dev/neo-go/pkg/crypto/keys"
+	"github.com/nspcc-dev/neo-go/pkg/util"
+	"github.com/nspcc-dev/neofs-node/pkg/morph/client"
+	"go.uber.org/zap"
+)
+
+// VerifNewStateServer returns a Server with only the state the alphabet
+// membership getters and the validator vote need: the real inner ring indexer
+// over the given key fetchers (no caching), the FS chain client and the list of
+// alphabet contracts.
+func VerifNewStateServer(log *zap.Logger, cli *client.Client, key *keys.PublicKey, alphabetContracts []util.Uint160,
+	irf interface {
+		InnerRingKeys() (keys.PublicKeys, error)
+	}, comf interface {
+		Committee() (keys.PublicKeys, error)
+	}) *Server {
+	return &Server{
+		log:           log,
+		fsChainClient: cli,
+		statusIndex:   newInnerRingIndexer(comf, irf, key, 0),
+		contracts:     &contracts{alphabet: alphabetContracts},
+	}
+}
+
+// VerifStartupVote is the validator vote exactly as Server.Start makes it.
+func (s *Server) VerifStartupVote(validators keys.PublicKeys) error {
+	return s.voteForFSChainValidator(context.Background(), validators, nil)
+}
